@@ -12,10 +12,84 @@ EXPLANATION = (
     'called outside every loop, once, on every normal path; the loop condition reads both interpreter.final and the stop flag; every '
     'cycle ends at a pause point and one precedes the loop; stop() sets the stop flag, then wakes a paused runner, then joins; lockset '
     'rule on the event queues - read-modify-write sequences executed in different thread roles (runner: everything reachable from _run; '
-    'client: the public API) must hold a common lock. Decides lifecycle shape and lock discipline, not behaviour under every schedule.')
+    'client: the public API) must hold a common lock; lock re-entrancy - no hook or method of the runner is called under a non-reentrant lock that the public API '
+    'acquires. Decides lifecycle shape and lock discipline, not behaviour under every schedule.')
 
 
 from ..q import result_dropped
+
+
+LOCK_FIXTURE = [
+    ('sismic/runner/runner.py', "        self._stop = threading.Event()\n", "        self._stop = threading.Event()\n        self._fixture_lock = threading.Lock()\n"),
+    ('sismic/runner/runner.py', "        self._unpaused.clear()\n", "        self._unpaused.clear()\n        with self._fixture_lock:\n            pass\n"),
+    ('sismic/runner/runner.py', "            self.before_execute()\n", "            with self._fixture_lock:\n                self.before_execute()\n"),
+]
+
+
+def lock_findings(prog):
+    """Non-reentrant locks of AsyncRunner: [(lock, holder method, with node, callee name, acquirers)] where the runner calls an overridable or public method of
+    itself while holding the lock, and the public API (callable from that very method / hook) acquires the same lock: the calling thread then waits for itself."""
+    ci = prog.cls('AsyncRunner')
+    locks = set()
+    for m in ci.methods.values():
+        for st in q.walk(m.node, False):
+            if isinstance(st, ast.Assign) and isinstance(st.targets[0], ast.Attribute) and q.unparse(st.targets[0].value) == 'self' and \
+                    isinstance(strip_cast(st.value), ast.Call) and (dotted(strip_cast(st.value).func) or '').split('.')[-1] in ('Lock', 'Semaphore', 'BoundedSemaphore', 'Condition'):
+                locks.add('self.' + st.targets[0].attr)
+
+    def acquires(m, lk, seen=None):
+        seen = seen or set()
+        if m.short in seen:
+            return False
+        seen.add(m.short)
+        for n in q.walk(m.node, False):
+            if isinstance(n, ast.With) and any(q.unparse(it.context_expr) == lk for it in n.items):
+                return True
+            if isinstance(n, ast.Call) and q.unparse(n.func) == lk + '.acquire':
+                return True
+            if isinstance(n, ast.Call) and isinstance(n.func, ast.Attribute) and q.unparse(n.func.value) == 'self' and n.func.attr in ci.methods and \
+                    acquires(ci.methods[n.func.attr], lk, seen):
+                return True
+        return False
+    out = []
+    for lk in sorted(locks):
+        public_acq = sorted(m.name for m in ci.methods.values() if not m.name.startswith('_') and acquires(m, lk))
+        for m in ci.methods.values():
+            for w in q.walk(m.node, False):
+                if not (isinstance(w, ast.With) and any(q.unparse(it.context_expr) == lk for it in w.items)):
+                    continue
+                for st in w.body:
+                    for c in [x for x in ast.walk(st) if isinstance(x, ast.Call)]:
+                        if isinstance(c.func, ast.Attribute) and q.unparse(c.func.value) == 'self' and c.func.attr in ci.methods:
+                            callee = ci.methods[c.func.attr]
+                            # an overridable method (hook) may call any public method of the runner; a private one is judged by what it reaches
+                            hits = public_acq if not callee.name.startswith('_') else (['(itself)'] if acquires(callee, lk) else [])
+                            if acquires(callee, lk):
+                                hits = sorted(set(hits) | {callee.name})
+                            if hits:
+                                out.append((lk, m, w, callee.name, hits))
+    return sorted(locks), out
+
+
+def rules_reentrancy(run):
+    from ..selftest.runner import apply_edits
+    from ..loader import Tree
+    from ..prog import Program
+    prog = run.prog
+    r = run.rule('C20.6', 'no self-deadlock: the runner never calls one of its hooks (before_execute, execute, after_execute, ..) or methods while holding a non-reentrant '
+                          'lock that the public API (pause, unpause, stop, ..) acquires - a hook that pauses or stops its own runner would wait for itself for ever')
+    locks, found = lock_findings(prog)
+    for lk, m, w, callee, hits in found:
+        run.fail(r, m.short, 'calls self.%s() holding %s' % (callee, lk), '%s is not reentrant and is acquired by %s: called from %s (same thread), the runner thread blocks for '
+                 'ever, stop() never returns and after_run never runs' % (lk, hits, callee), w)
+    run.ok(r, 'AsyncRunner', '%d non-reentrant lock field(s): %s; no hook or method is called under a lock the public API takes' % (len(locks), locks) if not found else 'locks examined', None)
+    ov = apply_edits(LOCK_FIXTURE)
+    if ov is None:
+        run.note('C20.6: positive fixture not applicable to the current text of runner.py (detector not re-proved on this run)')
+    else:
+        _, f2 = lock_findings(Program(Tree(root=run.tree.root, overlay=dict(run.tree.overlay, **ov))))
+        run.floor(len(f2), 1, r, 'findings on the positive fixture (pause() takes a lock held around before_execute)')
+        run.ok(r, 'fixture', 'detector fires on the in-memory fixture', None)
 
 
 def check(run):
@@ -221,5 +295,6 @@ def check(run):
             run.fail(r, 'Interpreter.' + queue, '_queue_event:bisect->insert x _select_event:peek->pop',
                      'no common lock (%s): a client bisecting while the runner pops can place a due event behind a not-yet-due one, so due events are not consumed in FIFO order'
                      % roles, ins[0])
+    run.guard(rules_reentrancy, run)
     run.note('context (not findings): _time, _listeners, _configuration are single reads/appends across roles; the internal queue is written by the runner role only '
              '(send()), unless a client queues InternalEvent instances by hand')
